@@ -7,6 +7,7 @@
 import PydapModel.Handler
 import Proofs.Handler
 import Proofs.HandlerWF
+import Proofs.Arrayterator
 import Proofs.CeSrc
 import Proofs.HlibSrc
 namespace Pydap.C15
@@ -142,22 +143,64 @@ theorem C15_constrain_wf (ds cds : Dataset) (proj : List ProjItem) (sel : List S
 
 /-- **A hyperslab is applied or rejected inside the guarded region — nothing is left to the body**
     (`check_hyperslab`, the repair of the finding "200, then the body raises"): on an array of any
-    shape, a slice tuple is either accepted — at most as many slices as dimensions, every slice
-    starting inside its axis, not empty or inverted, stride ≥ 1; a last index beyond the extent is
-    clipped — and the array is replaced by numpy's selection, or `ConstraintExpressionError` is
-    raised.  No other outcome exists: the former unresolved region of the model is gone. -/
+    shape — as the handler holds it or as an earlier hyperslab of the same request left it — a slice tuple is either
+    accepted — at most as many slices as dimensions, every slice starting inside its axis *of the shape the variable
+    shows now*, not empty or inverted, stride ≥ 1; a last index beyond the extent is clipped — and the array is
+    replaced by what `Arrayterator.__getitem__` yields, or `ConstraintExpressionError` is raised.  No other outcome
+    exists. -/
 theorem C15_hyperslab_applied_or_rejected (b : Base) (sl : List PSlice) :
     (sl.length ≤ b.shape.length ∧ (List.zipWith validSl b.shape sl).all id = true ∧
       sliceBase b sl = .ok { b with
-        shape := (List.zipWith sel b.shape (padSl b.shape.length sl)).map List.length,
-        data := selND b.shape (List.zipWith sel b.shape (padSl b.shape.length sl)) b.data,
-        kind := .arr }) ∨
+        shape := (List.zipWith Win.get b.arrayterator.win (padSl b.shape.length sl)).map Win.count,
+        data := selND b.arrayterator.shape (List.zipWith Win.pos b.arrayterator.shape
+                  (List.zipWith Win.get b.arrayterator.win (padSl b.shape.length sl))) b.arrayterator.data,
+        kind := .arr,
+        view := some { b.arrayterator with
+                       win := List.zipWith Win.get b.arrayterator.win (padSl b.shape.length sl) } }) ∨
     (¬ (sl.length ≤ b.shape.length ∧ (List.zipWith validSl b.shape sl).all id = true) ∧
       sliceBase b sl = .error .ceError) := by
   unfold sliceBase
   split
   · rename_i h; exact .inl ⟨h.1, h.2, rfl⟩
   · rename_i h; exact .inr ⟨h, rfl⟩
+
+/-- … and on a variable the projection names for the first time what is applied is numpy's selection -/
+theorem C15_hyperslab_first_is_numpy (b b' : Base) (sl : List PSlice) (h : b.WF) (hv : b.view = none)
+    (hs : sliceBase b sl = .ok b') :
+    b'.shape = (List.zipWith sel b.shape (padSl b.shape.length sl)).map List.length ∧
+    b'.data = selND b.shape (List.zipWith sel b.shape (padSl b.shape.length sl)) b.data :=
+  sliceBase_fresh b b' sl h hv hs
+
+/-- **A variable named twice (or more often), any strides**: every further hyperslab is checked against the shape
+    the earlier ones left; when it is accepted the array is again well formed — as many values as the new shape
+    says, an object with `.flat`, an `Arrayterator` inside its array — so the body can be produced
+    (`C15_body_complete` rests on this for every projection list, repeated items included). -/
+theorem C15_repeated_hyperslab_wf (b b1 b2 : Base) (sl1 sl2 : List PSlice) (h : b.WF)
+    (h1 : sliceBase b sl1 = .ok b1) (h2 : sliceBase b1 sl2 = .ok b2) :
+    b1.WF ∧ b2.WF ∧ sl2.length ≤ b1.shape.length ∧ (List.zipWith validSl b1.shape sl2).all id = true := by
+  have w1 := (sliceBase_wf b b1 sl1 h h1).1
+  refine ⟨w1, (sliceBase_wf b1 b2 sl2 w1 h2).1, ?_⟩
+  rcases C15_hyperslab_applied_or_rejected b1 sl2 with ⟨ha, hb, _⟩ | ⟨_, he⟩
+  · exact ⟨ha, hb⟩
+  · rw [he] at h2; cases h2
+
+/-- **A member of a grid named again after the whole grid** (`?g[0][0][2],g.y`, `?g,g.v`; since the repair of the
+    finding this check made with the lifted `repeated-item` requests): the collect pass leaves the output as it is —
+    the grid keeps its array first and its maps in axis order, so the hyperslab on the grid pairs every map with its
+    own axis.  (Before, the member was set again: it went behind the other maps and was sliced with another axis'
+    index: 200, then `ValueError` in the body.) -/
+theorem C15_grid_member_after_grid (src : Dataset) (out : List Var) (n m : Str) (a0 a b : Base) (ms0 ms : List Base)
+    (sl0 sl1 : List PSlice) (hf : findVar src.vars n = some (.grid n a0 ms0))
+    (hm : (a0 :: ms0).find? (·.name = m) = some b) (ho : findVar out n = some (.grid n a ms)) :
+    collect1Core src out (.path [(n, sl0), (m, sl1)]) = .ok out := by
+  simp [collect1Core, hf, findMember, hm, ho]
+
+/-- one axis of a repeated item: a window inside the axis and a hyperslab accepted against the shape it announces
+    give a window inside the axis that announces exactly the number of positions it reads (never a negative or
+    over-long dimension) -/
+theorem C15_valid_axis_repeated (n : Nat) (w : Win) (s : PSlice) (h : w.OK n) (hv : validSl w.count s = true) :
+    (w.get s).OK n ∧ ((w.get s).pos n).length = (w.get s).count ∧ ∀ j ∈ (w.get s).pos n, j < n :=
+  ⟨Win.get_ok h hv, Win.pos_length (Win.get_ok h hv), Win.pos_lt (Win.get_ok h hv)⟩
 
 /-- what `check_hyperslab` accepts on one axis, spelled out on the parsed hyperslab `[a:k:b]`
     (start `a`, stop `b + 1`, step `k`): `0 ≤ a < N` (or `a = 0` on an axis of length 0: the whole, empty, axis),
@@ -263,7 +306,7 @@ example : handle intText dsA (cs!"/d.foo") [] = .errdoc (-1) := by decide
 example : handle intText dsA (cs!"/d.dds") (cs!"a[0:1]")
     = .ok .dds (.complete (cs!"Dataset {\n    Int32 a[a = 2];\n} d;\n")) := by decide +kernel
 example : dsA.WF := by
-  intro v hv; simp [dsA] at hv; subst hv; exact ⟨rfl, rfl⟩
+  intro v hv; simp [dsA] at hv; subst hv; exact ⟨rfl, rfl, trivial⟩
 
 /-! ### the tie by translation: the *source text* of `parse_ce`'s first statement is `parseCE`'s first test
 
